@@ -964,6 +964,16 @@ class Interp:
             if isinstance(a0, Const) and isinstance(a0.v, (str, tuple, list)):
                 return Const(len(a0.v))
             return Sym(f"len({tagof(a0)})", origin=("len", a0), typ="int")
+        if b == "sorted" and isinstance(a0, (Tup, Lst)) and not getattr(a0, "open", False) and ("key" in kwargs or "reverse" in kwargs):
+            keyf = kwargs.get("key")
+            keys = [self.call(keyf, [x], {}, site, env) if keyf is not None else x for x in a0.items]
+            if all(isinstance(k, Const) for k in keys):
+                try:
+                    order = sorted(range(len(keys)), key=lambda i: keys[i].v, reverse=bool(isinstance(kwargs.get("reverse"), Const) and kwargs["reverse"].v))
+                    return Lst([a0.items[i] for i in order])
+                except TypeError:
+                    pass
+            return Sym(f"sorted({tagof(a0)})", origin=("call", "sorted", args, kwargs))
         if b in ("tuple", "list", "set", "sorted", "iter", "frozenset"):
             if a0 is None:
                 return Lst([])
